@@ -3,6 +3,7 @@ import Octo.Lemmas.SqlComb
 /-!
 # Round trip of expressions, one precedence level at a time (C30)
 -/
+set_option linter.unusedSimpArgs false
 namespace Octo.Sql
 
 def followS : List Tok → Bool
@@ -511,6 +512,490 @@ theorem rt14 (e : Expr) (hok : okE e = true) (hl : 14 ≤ e.lvl) (hd : depthE e 
   | trigEos => simp [Expr.lvl] at hl
   | trigDelay _ => simp [Expr.lvl] at hl
   | order _ _ => simp [Expr.lvl] at hl
+
+/-! ### level 13: postfix `->`, `[ ]` -/
+
+theorem postfixLoop_stop (m : Nat) (acc : Expr) (rest : List Tok) (hf : follow 13 rest = true) :
+    postfixLoop prev (m + 1) acc rest = some (acc, rest) := by
+  cases rest with
+  | nil => simp [postfixLoop]
+  | cons t ts =>
+    simp [follow] at hf
+    have h1 : t ≠ Tok.kw .JSON_EXTRACT_OP := by intro h; subst h; simp [tokLevel] at hf
+    have h2 : t ≠ Tok.kw .LIST_ARG := by intro h; subst h; simp [tokLevel] at hf
+    have h3 : t ≠ Tok.kw .LBRACK := by intro h; subst h; simp [tokLevel] at hf
+    simp [postfixLoop, h1, h2, h3]
+
+theorem postChain : ∀ n e, sizeE e ≤ n → okE e = true → 13 ≤ e.lvl → depthE e ≤ d + 1 → ∀ rest, follow 14 rest = true →
+    ∃ j, j ≤ (printE e).length ∧ ∀ m,
+      (match parseAtom prev (printE e ++ rest) with
+       | none => none
+       | some (a, r) => postfixLoop prev (m + j) a r) = postfixLoop prev m e rest := by
+  intro n
+  induction n with
+  | zero => intro e h; have := sizeE_pos e; omega
+  | succ n ih =>
+    intro e hsz hok hl hd rest hf
+    by_cases h14 : 14 ≤ e.lvl
+    · exact ⟨0, Nat.zero_le _, fun m => by simp [rt14 hp e hok h14 hd rest hf]⟩
+    · cases e with
+      | field e' name =>
+        simp [okE] at hok
+        simp [sizeE] at hsz
+        simp [depthE] at hd
+        obtain ⟨j, hj, hrun⟩ := ih e' (by omega) hok.1.1 hok.1.2 hd
+          (Tok.kw .JSON_EXTRACT_OP :: Tok.id name :: rest) (by simp [follow, tokLevel])
+        refine ⟨j + 1, by simp [printE_field e' name hok.2]; omega, ?_⟩
+        intro m
+        have := hrun (m + 1)
+        simp [printE_field e' name hok.2] at this ⊢
+        rw [show m + (j + 1) = m + 1 + j by omega, this]
+        simp [postfixLoop, identOf]
+      | index l i =>
+        simp [okE] at hok
+        simp [sizeE] at hsz
+        simp [depthE] at hd
+        obtain ⟨j, hj, hrun⟩ := ih l (by omega) hok.1.1.1 hok.1.2 (by omega)
+          (Tok.kw .LBRACK :: (printE i ++ Tok.kw .RBRACK :: rest)) (by simp [follow, tokLevel])
+        refine ⟨j + 1, by simp [printE_index]; omega, ?_⟩
+        intro m
+        have := hrun (m + 1)
+        simp [printE_index] at this ⊢
+        rw [show m + (j + 1) = m + 1 + j by omega, this]
+        have hv := hp.val i hok.1.1.2 hok.2 (by omega) (Tok.kw .RBRACK :: rest) (by simp [follow, tokLevel])
+        simp [postfixLoop, hv]
+      | val ty neg s => cases neg <;> simp [Expr.lvl] at hl h14
+      | bin op _ _ => cases op <;> simp [Expr.lvl, BinOp.lvl] at hl
+      | _ => simp [Expr.lvl] at hl h14
+
+theorem rt13 (e : Expr) (hok : okE e = true) (hl : 13 ≤ e.lvl) (hd : depthE e ≤ d + 1) (rest : List Tok)
+    (hf : follow 13 rest = true) : parsePostfix prev (printE e ++ rest) = some (e, rest) := by
+  obtain ⟨j, hj, hrun⟩ := postChain hp (sizeE e) e (Nat.le_refl _) hok hl hd rest (follow_mono (by omega) hf)
+  unfold parsePostfix
+  have hlen : (printE e ++ rest).length + 1 = ((printE e ++ rest).length - j) + 1 + j := by
+    simp only [List.length_append]; omega
+  rw [hlen]
+  exact (hrun _).trans (postfixLoop_stop hp _ e rest hf)
+
+/-! ### level 12: unary operators and negative literals -/
+
+theorem parseUnary_skip (t : Tok) (ts : List Tok) (h : exprStart 13 t = true) :
+    parseUnary prev (t :: ts) = parsePostfix prev (t :: ts) := by
+  have h1 : t ≠ Tok.kw .MINUS := by intro h'; subst h'; simp [exprStart] at h
+  have h2 : t ≠ Tok.kw .PLUS := by intro h'; subst h'; simp [exprStart] at h
+  have h3 : t ≠ Tok.kw .BANG := by intro h'; subst h'; simp [exprStart] at h
+  have h4 : t ≠ Tok.kw .TILDE := by intro h'; subst h'; simp [exprStart] at h
+  simp [parseUnary, h1, h2, h3, h4]
+
+omit hp in
+theorem mkNeg_of_not_int {e : Expr} (h : e.isIntLit = false) : mkNeg e = .un .minus e := by
+  cases e with
+  | val ty neg s => cases ty <;> simp [Expr.isIntLit] at h <;> simp [mkNeg]
+  | _ => simp [mkNeg]
+omit hp in
+theorem mkPos_of_not_int {e : Expr} (h : e.isIntLit = false) : mkPos e = .un .plus e := by
+  cases e with
+  | val ty neg s => cases ty <;> simp [Expr.isIntLit] at h <;> simp [mkPos]
+  | _ => simp [mkPos]
+
+theorem rt12 : ∀ n e, sizeE e ≤ n → okE e = true → 12 ≤ e.lvl → depthE e ≤ d + 1 → ∀ rest, follow 12 rest = true →
+    parseUnary prev (printE e ++ rest) = some (e, rest) := by
+  intro n
+  induction n with
+  | zero => intro e h; have := sizeE_pos e; omega
+  | succ n ih =>
+    intro e hsz hok hl hd rest hf
+    by_cases h13 : 13 ≤ e.lvl
+    · obtain ⟨t, ts, hh, hst⟩ := print_head _ e (Nat.le_refl _) hok (by omega)
+      have h := rt13 hp e hok h13 hd rest (follow_mono (by omega) hf)
+      rw [hh] at h ⊢
+      simp only [List.cons_append] at h ⊢
+      rw [parseUnary_skip hp t _ (exprStart_mono h13 hst), h]
+    · cases e with
+      | un op e' =>
+        simp [okE] at hok
+        simp [sizeE] at hsz
+        simp [depthE] at hd
+        have hr := ih e' (by omega) hok.1.1 hok.1.2 hd rest hf
+        cases op with
+        | minus =>
+          have := mkNeg_of_not_int (e := e') (by simpa using hok.2)
+          simp [printE_un, UnOp.tok, parseUnary, hr, this]
+        | plus =>
+          have := mkPos_of_not_int (e := e') (by simpa using hok.2)
+          simp [printE_un, UnOp.tok, parseUnary, hr, this]
+        | bang => simp [printE_un, UnOp.tok, parseUnary, hr]
+        | tilde => simp [printE_un, UnOp.tok, parseUnary, hr]
+      | val ty neg s =>
+        cases neg with
+        | false => simp [Expr.lvl] at h13
+        | true =>
+          simp [okE] at hok
+          subst hok
+          have h1 : parsePostfix prev (Tok.int s :: rest) = some (.val .int false s, rest) := by
+            simp [parsePostfix, parseAtom, postfixLoop_stop hp _ _ rest (follow_mono (by omega) hf)]
+          have h2 := parseUnary_skip hp (Tok.int s) rest (by simp [exprStart])
+          simp [printE_val, printVal, parseUnary, h2, h1, mkNeg]
+      | bin op _ _ => cases op <;> simp [Expr.lvl, BinOp.lvl] at hl
+      | _ => simp [Expr.lvl] at hl h13
+
+/-! ### levels 11 … 6: the binary operators -/
+
+omit hp in
+theorem tokLevel_binTok (op : BinOp) : tokLevel op.tok = op.lvl := by cases op <;> rfl
+
+/-- one binary level `k`, given the next tighter level -/
+theorem rtBin (k : Nat) (hk6 : 6 ≤ k) (hk11 : k ≤ 11) (next : P Expr) (ops : Tok → Option BinOp)
+    (hops1 : ∀ op : BinOp, op.lvl = k → ops op.tok = some op)
+    (hops2 : ∀ t, tokLevel t < k → ops t = none)
+    (hnext : ∀ e, okE e = true → k + 1 ≤ e.lvl → depthE e ≤ d + 1 → ∀ rest, follow (k + 1) rest = true →
+      next (printE e ++ rest) = some (e, rest))
+    (e : Expr) (hok : okE e = true) (hl : k ≤ e.lvl) (hd : depthE e ≤ d + 1) (rest : List Tok)
+    (hf : follow k rest = true) : binLevel next ops Expr.bin (printE e ++ rest) = some (e, rest) := by
+  refine binLevel_rt next ops Expr.bin BinOp.tok (fun op => op.lvl = k)
+    (fun e => okE e = true ∧ k + 1 ≤ e.lvl ∧ depthE e ≤ d + 1) (fun e => okE e = true ∧ k ≤ e.lvl ∧ depthE e ≤ d + 1)
+    (fun r => follow (k + 1) r = true) (fun r => follow k r = true)
+    (fun e ⟨h1, h2, h3⟩ rest hf => hnext e h1 h2 h3 rest hf)
+    hops1
+    (fun op ts hR => by simp [follow, tokLevel_binTok, hR])
+    (fun rest h => follow_mono (by omega) h)
+    (fun t ts h => hops2 t (by simpa [follow] using h))
+    ?_ e ⟨hok, hl, hd⟩ rest hf
+  intro e ⟨h1, h2, h3⟩
+  by_cases hk : k + 1 ≤ e.lvl
+  · exact Or.inl ⟨h1, hk, h3⟩
+  · right
+    cases e with
+    | bin op l r =>
+      simp [okE] at h1
+      simp [Expr.lvl] at h2 hk
+      simp [depthE] at h3
+      exact ⟨op, l, r, by omega, rfl, ⟨h1.1.1.1, by omega, by omega⟩, ⟨h1.1.1.2, by omega, by omega⟩,
+        printE_bin op l r, by simp [sizeE]; omega⟩
+    | val ty neg s => cases neg <;> simp [Expr.lvl] at h2 hk <;> omega
+    | _ => simp [Expr.lvl] at h2 hk <;> omega
+
+theorem rt11 (e : Expr) (hok : okE e = true) (hl : 11 ≤ e.lvl) (hd : depthE e ≤ d + 1) (rest : List Tok)
+    (hf : follow 11 rest = true) : parseL11 prev (printE e ++ rest) = some (e, rest) :=
+  rtBin hp 11 (by omega) (by omega) (parseUnary prev) opsL11
+    (by intro op h; cases op <;> simp [BinOp.lvl] at h <;> rfl)
+    (by intro t h; unfold opsL11; split <;> simp_all [tokLevel])
+    (fun e h1 h2 h3 rest hf => rt12 hp _ e (Nat.le_refl _) h1 h2 h3 rest hf) e hok hl hd rest hf
+
+theorem rt10 (e : Expr) (hok : okE e = true) (hl : 10 ≤ e.lvl) (hd : depthE e ≤ d + 1) (rest : List Tok)
+    (hf : follow 10 rest = true) : parseL10 prev (printE e ++ rest) = some (e, rest) :=
+  rtBin hp 10 (by omega) (by omega) (parseL11 prev) opsL10
+    (by intro op h; cases op <;> simp [BinOp.lvl] at h <;> rfl)
+    (by intro t h; unfold opsL10; split <;> simp_all [tokLevel])
+    (fun e h1 h2 h3 rest hf => rt11 hp e h1 h2 h3 rest hf) e hok hl hd rest hf
+
+theorem rt9 (e : Expr) (hok : okE e = true) (hl : 9 ≤ e.lvl) (hd : depthE e ≤ d + 1) (rest : List Tok)
+    (hf : follow 9 rest = true) : parseL9 prev (printE e ++ rest) = some (e, rest) :=
+  rtBin hp 9 (by omega) (by omega) (parseL10 prev) opsL9
+    (by intro op h; cases op <;> simp [BinOp.lvl] at h <;> rfl)
+    (by intro t h; unfold opsL9; split <;> simp_all [tokLevel])
+    (fun e h1 h2 h3 rest hf => rt10 hp e h1 h2 h3 rest hf) e hok hl hd rest hf
+
+theorem rt8 (e : Expr) (hok : okE e = true) (hl : 8 ≤ e.lvl) (hd : depthE e ≤ d + 1) (rest : List Tok)
+    (hf : follow 8 rest = true) : parseL8 prev (printE e ++ rest) = some (e, rest) :=
+  rtBin hp 8 (by omega) (by omega) (parseL9 prev) opsL8
+    (by intro op h; cases op <;> simp [BinOp.lvl] at h <;> rfl)
+    (by intro t h; unfold opsL8; split <;> simp_all [tokLevel])
+    (fun e h1 h2 h3 rest hf => rt9 hp e h1 h2 h3 rest hf) e hok hl hd rest hf
+
+theorem rt7 (e : Expr) (hok : okE e = true) (hl : 7 ≤ e.lvl) (hd : depthE e ≤ d + 1) (rest : List Tok)
+    (hf : follow 7 rest = true) : parseL7 prev (printE e ++ rest) = some (e, rest) :=
+  rtBin hp 7 (by omega) (by omega) (parseL8 prev) opsL7
+    (by intro op h; cases op <;> simp [BinOp.lvl] at h <;> rfl)
+    (by intro t h; unfold opsL7; split <;> simp_all [tokLevel])
+    (fun e h1 h2 h3 rest hf => rt8 hp e h1 h2 h3 rest hf) e hok hl hd rest hf
+
+/-- level 6: `value_expression` -/
+theorem rt6 (e : Expr) (hok : okE e = true) (hl : 6 ≤ e.lvl) (hd : depthE e ≤ d + 1) (rest : List Tok)
+    (hf : follow 6 rest = true) : parseVal prev (printE e ++ rest) = some (e, rest) :=
+  rtBin hp 6 (by omega) (by omega) (parseL7 prev) opsL6
+    (by intro op h; cases op <;> simp [BinOp.lvl] at h <;> rfl)
+    (by intro t h; unfold opsL6; split <;> simp_all [tokLevel])
+    (fun e h1 h2 h3 rest hf => rt7 hp e h1 h2 h3 rest hf) e hok hl hd rest hf
+
+/-! ### level 5: comparisons, IN, LIKE, REGEXP, EXISTS -/
+
+theorem condRest_stop (l : Expr) (rest : List Tok) (hf : follow 5 rest = true) :
+    parseCondRest prev l rest = some (l, rest) := by
+  cases rest with
+  | nil => simp [parseCondRest]
+  | cons t ts =>
+    simp [follow] at hf
+    have h1 : t ≠ Tok.kw .IN := by intro h; subst h; simp [tokLevel] at hf
+    have h2 : t ≠ Tok.kw .LIKE := by intro h; subst h; simp [tokLevel] at hf
+    have h3 : t ≠ Tok.kw .REGEXP := by intro h; subst h; simp [tokLevel] at hf
+    have h4 : t ≠ Tok.kw .NOT := by intro h; subst h; simp [tokLevel] at hf
+    have h5 : cmpOpOf t = none := by
+      unfold cmpOpOf; split <;> simp_all [tokLevel]
+    simp [parseCondRest, h1, h2, h3, h4, h5]
+
+theorem colTuple_rt (r : Expr) (hok : okInRhs r = true) (hd : depthE r ≤ d + 1) (rest : List Tok) :
+    parseColTuple prev (printE r ++ rest) = some (r, rest) := by
+  cases r with
+  | tuple es =>
+    simp [okInRhs] at hok
+    simp [depthE] at hd
+    match es, hok with
+    | x :: xs, hok =>
+      have hx := okEs_mem hok.1 x (by simp)
+      obtain ⟨t, ts, hh, hst⟩ := print_head _ x (Nat.le_refl _) hx.1 hx.2
+      have hss : ∀ tl, startsSelect (printE x ++ tl) = false := by
+        intro tl; rw [hh]; exact startsSelect_of_exprStart hst
+      have h := exprListClose_rt hp x xs hok.1 hd rest
+      simp [printE_tuple, printEs, run_Exprs_cons, parseColTuple, headIs_cons, hss] at h ⊢
+      simp [h]
+  | subq s =>
+    simp [okInRhs] at hok
+    simp [depthE] at hd
+    simp [printE_subq, parseColTuple, headIs_cons, startsSelect_printS hp s hok.2,
+      subqueryBody_rt hp s hok.1 hok.2 hd rest]
+  | _ => simp [okInRhs] at hok
+
+theorem rt5 (e : Expr) (hok : okE e = true) (hl : 5 ≤ e.lvl) (hd : depthE e ≤ d + 1) (rest : List Tok)
+    (hf : follow 5 rest = true) : parseCond prev (printE e ++ rest) = some (e, rest) := by
+  have hf6 : follow 6 rest = true := follow_mono (by omega) hf
+  by_cases h6 : 6 ≤ e.lvl
+  · obtain ⟨t, ts, hh, hst⟩ := print_head _ e (Nat.le_refl _) hok (by omega)
+    have hne : headIs .EXISTS (printE e ++ rest) = false := by
+      rw [hh]; simp [headIs_cons]; intro h; subst h
+      have := exprStart_mono h6 hst; simp [exprStart] at this
+    unfold parseCond
+    simp [hne, rt6 hp e hok h6 hd rest hf6, condRest_stop hp e rest hf]
+  · cases e with
+    | exists_ s =>
+      simp [okE] at hok
+      simp [depthE] at hd
+      simp [printE_exists, parseCond, headIs_cons, startsSelect_printS hp s hok.2,
+        subqueryBody_rt hp s hok.1 hok.2 hd rest]
+    | cmp op l r =>
+      simp [okE] at hok
+      simp [depthE] at hd
+      obtain ⟨t, ts, hh, hst⟩ := print_head _ l (Nat.le_refl _) hok.1.1 (by omega)
+      have hne : ∀ tl, headIs .EXISTS (printE l ++ tl) = false := by
+        intro tl; rw [hh]; simp [headIs_cons]; intro h; subst h
+        have := exprStart_mono hok.1.2 hst; simp [exprStart] at this
+      have hl6 : ∀ tl, follow 6 tl = true → parseVal prev (printE l ++ tl) = some (l, tl) :=
+        fun tl h => rt6 hp l hok.1.1 hok.1.2 (by omega) tl h
+      by_cases hin : op.isIn = true
+      · have hr : okInRhs r = true := by simpa [hin] using hok.2
+        have hc := colTuple_rt hp r hr (by omega) rest
+        cases op <;> simp [CmpOp.isIn] at hin
+        · have := hl6 (Tok.kw .IN :: (printE r ++ rest)) (by simp [follow, tokLevel])
+          simp [printE_cmp, CmpOp.toks, Gen.c_InStr, parseCond, hne, this, parseCondRest, parseCmpRhs, CmpOp.isIn, hc]
+        · have := hl6 (Tok.kw .NOT :: Tok.kw .IN :: (printE r ++ rest)) (by simp [follow, tokLevel])
+          simp [printE_cmp, CmpOp.toks, Gen.c_NotInStr, parseCond, hne, this, parseCondRest, parseCmpRhs, CmpOp.isIn, hc,
+            headIs_cons]
+      · have hr : okE r = true ∧ 6 ≤ r.lvl := by simpa [hin] using hok.2
+        have hrv := rt6 hp r hr.1 hr.2 (by omega) rest hf6
+        cases op <;> simp [CmpOp.isIn] at hin
+        · have := hl6 (Tok.kw .EQ :: (printE r ++ rest)) (by simp [follow, tokLevel])
+          simp [printE_cmp, CmpOp.toks, Gen.c_EqualStr, parseCond, hne, this, parseCondRest, parseCmpRhs, CmpOp.isIn, hrv,
+            cmpOpOf]
+        · have := hl6 (Tok.kw .LT :: (printE r ++ rest)) (by simp [follow, tokLevel])
+          simp [printE_cmp, CmpOp.toks, Gen.c_LessThanStr, parseCond, hne, this, parseCondRest, parseCmpRhs, CmpOp.isIn,
+            hrv, cmpOpOf]
+        · have := hl6 (Tok.kw .GT :: (printE r ++ rest)) (by simp [follow, tokLevel])
+          simp [printE_cmp, CmpOp.toks, Gen.c_GreaterThanStr, parseCond, hne, this, parseCondRest, parseCmpRhs, CmpOp.isIn,
+            hrv, cmpOpOf]
+        · have := hl6 (Tok.kw .LE :: (printE r ++ rest)) (by simp [follow, tokLevel])
+          simp [printE_cmp, CmpOp.toks, Gen.c_LessEqualStr, parseCond, hne, this, parseCondRest, parseCmpRhs, CmpOp.isIn,
+            hrv, cmpOpOf]
+        · have := hl6 (Tok.kw .GE :: (printE r ++ rest)) (by simp [follow, tokLevel])
+          simp [printE_cmp, CmpOp.toks, Gen.c_GreaterEqualStr, parseCond, hne, this, parseCondRest, parseCmpRhs, CmpOp.isIn,
+            hrv, cmpOpOf]
+        · have := hl6 (Tok.kw .NE :: (printE r ++ rest)) (by simp [follow, tokLevel])
+          simp [printE_cmp, CmpOp.toks, Gen.c_NotEqualStr, parseCond, hne, this, parseCondRest, parseCmpRhs, CmpOp.isIn,
+            hrv, cmpOpOf]
+        · have := hl6 (Tok.kw .NULL_SAFE_EQUAL :: (printE r ++ rest)) (by simp [follow, tokLevel])
+          simp [printE_cmp, CmpOp.toks, Gen.c_NullSafeEqualStr, parseCond, hne, this, parseCondRest, parseCmpRhs,
+            CmpOp.isIn, hrv, cmpOpOf]
+        · have := hl6 (Tok.kw .LIKE :: (printE r ++ rest)) (by simp [follow, tokLevel])
+          simp [printE_cmp, CmpOp.toks, Gen.c_LikeStr, parseCond, hne, this, parseCondRest, parseCmpRhs, CmpOp.isIn, hrv]
+        · have := hl6 (Tok.kw .NOT :: Tok.kw .LIKE :: (printE r ++ rest)) (by simp [follow, tokLevel])
+          simp [printE_cmp, CmpOp.toks, Gen.c_NotLikeStr, parseCond, hne, this, parseCondRest, parseCmpRhs, CmpOp.isIn, hrv,
+            headIs_cons]
+        · have := hl6 (Tok.kw .REGEXP :: (printE r ++ rest)) (by simp [follow, tokLevel])
+          simp [printE_cmp, CmpOp.toks, Gen.c_RegexpStr, parseCond, hne, this, parseCondRest, parseCmpRhs, CmpOp.isIn, hrv]
+        · have := hl6 (Tok.kw .NOT :: Tok.kw .REGEXP :: (printE r ++ rest)) (by simp [follow, tokLevel])
+          simp [printE_cmp, CmpOp.toks, Gen.c_NotRegexpStr, parseCond, hne, this, parseCondRest, parseCmpRhs, CmpOp.isIn,
+            hrv, headIs_cons]
+    | val ty neg s => cases neg <;> simp [Expr.lvl] at hl h6
+    | bin op _ _ => cases op <;> simp [Expr.lvl, BinOp.lvl] at hl h6
+    | _ => simp [Expr.lvl] at hl h6
+
+/-! ### level 4: IS -/
+
+omit hp in
+theorem isLoop_stop (m : Nat) (acc : Expr) (rest : List Tok) (hf : follow 4 rest = true) :
+    isLoop (m + 1) acc rest = some (acc, rest) := by
+  cases rest with
+  | nil => simp [isLoop]
+  | cons t ts =>
+    simp [follow] at hf
+    have h1 : t ≠ Tok.kw .IS := by intro h; subst h; simp [tokLevel] at hf
+    simp [isLoop, h1]
+
+omit hp in
+theorem isSuffix_rt (op : IsOp) (rest : List Tok) :
+    ∃ tl, op.toks = Tok.kw .IS :: tl ∧ parseIsSuffix (tl ++ rest) = some (op, rest) := by
+  cases op
+  · exact ⟨[Tok.kw .NULL], rfl, by simp [parseIsSuffix]⟩
+  · exact ⟨[Tok.kw .NOT, Tok.kw .NULL], rfl, by simp [parseIsSuffix]⟩
+  · exact ⟨[Tok.kw .TRUE], rfl, by simp [parseIsSuffix]⟩
+  · exact ⟨[Tok.kw .NOT, Tok.kw .TRUE], rfl, by simp [parseIsSuffix]⟩
+  · exact ⟨[Tok.kw .FALSE], rfl, by simp [parseIsSuffix]⟩
+  · exact ⟨[Tok.kw .NOT, Tok.kw .FALSE], rfl, by simp [parseIsSuffix]⟩
+
+theorem isChain : ∀ n e, sizeE e ≤ n → okE e = true → 4 ≤ e.lvl → depthE e ≤ d + 1 → ∀ rest, follow 5 rest = true →
+    ∃ j, j ≤ (printE e).length ∧ ∀ m,
+      (match parseCond prev (printE e ++ rest) with
+       | none => none
+       | some (a, r) => isLoop (m + j) a r) = isLoop m e rest := by
+  intro n
+  induction n with
+  | zero => intro e h; have := sizeE_pos e; omega
+  | succ n ih =>
+    intro e hsz hok hl hd rest hf
+    by_cases h5 : 5 ≤ e.lvl
+    · exact ⟨0, Nat.zero_le _, fun m => by simp [rt5 hp e hok h5 hd rest hf]⟩
+    · cases e with
+      | is op e' =>
+        simp [okE] at hok
+        simp [sizeE] at hsz
+        simp [depthE] at hd
+        obtain ⟨tl, htoks, hsuf⟩ := isSuffix_rt op rest
+        obtain ⟨j, hj, hrun⟩ := ih e' (by omega) hok.1 hok.2 hd (op.toks ++ rest)
+          (by rw [htoks]; simp [follow, tokLevel])
+        refine ⟨j + 1, by simp [printE_is, htoks]; omega, ?_⟩
+        intro m
+        have := hrun (m + 1)
+        simp [printE_is] at this ⊢
+        rw [show m + (j + 1) = m + 1 + j by omega, this, htoks]
+        simp [isLoop, hsuf]
+      | val ty neg s => cases neg <;> simp [Expr.lvl] at hl h5
+      | bin op _ _ => cases op <;> simp [Expr.lvl, BinOp.lvl] at hl h5
+      | _ => simp [Expr.lvl] at hl h5
+
+theorem rt4 (e : Expr) (hok : okE e = true) (hl : 4 ≤ e.lvl) (hd : depthE e ≤ d + 1) (rest : List Tok)
+    (hf : follow 4 rest = true) : parseIs prev (printE e ++ rest) = some (e, rest) := by
+  obtain ⟨j, hj, hrun⟩ := isChain hp (sizeE e) e (Nat.le_refl _) hok hl hd rest (follow_mono (by omega) hf)
+  unfold parseIs
+  have hlen : (printE e ++ rest).length + 1 = ((printE e ++ rest).length - j) + 1 + j := by
+    simp only [List.length_append]; omega
+  rw [hlen]
+  exact (hrun _).trans (isLoop_stop _ e rest hf)
+
+/-! ### level 3: NOT -/
+
+theorem rt3 : ∀ n e, sizeE e ≤ n → okE e = true → 3 ≤ e.lvl → depthE e ≤ d + 1 → ∀ rest, follow 3 rest = true →
+    parseNot prev (printE e ++ rest) = some (e, rest) := by
+  intro n
+  induction n with
+  | zero => intro e h; have := sizeE_pos e; omega
+  | succ n ih =>
+    intro e hsz hok hl hd rest hf
+    by_cases h4 : 4 ≤ e.lvl
+    · obtain ⟨t, ts, hh, hst⟩ := print_head _ e (Nat.le_refl _) hok (by omega)
+      have h := rt4 hp e hok h4 hd rest (follow_mono (by omega) hf)
+      have hne : t ≠ Tok.kw .NOT := by
+        intro h'; subst h'; have := exprStart_mono h4 hst; simp [exprStart] at this
+      rw [hh] at h ⊢
+      simp only [List.cons_append] at h ⊢
+      simp [parseNot, hne, h]
+    · cases e with
+      | not e' =>
+        simp [okE] at hok
+        simp [sizeE] at hsz
+        simp [depthE] at hd
+        have hr := ih e' (by omega) hok.1 hok.2 hd rest hf
+        simp [printE_not, parseNot, hr]
+      | val ty neg s => cases neg <;> simp [Expr.lvl] at hl h4
+      | bin op _ _ => cases op <;> simp [Expr.lvl, BinOp.lvl] at hl h4
+      | _ => simp [Expr.lvl] at hl h4
+
+/-! ### levels 2 and 1: AND, OR -/
+
+theorem rt2 (e : Expr) (hok : okE e = true) (hl : 2 ≤ e.lvl) (hd : depthE e ≤ d + 1) (rest : List Tok)
+    (hf : follow 2 rest = true) : parseAnd prev (printE e ++ rest) = some (e, rest) := by
+  refine binLevel_rt (parseNot prev) andOpOf (fun _ l r => Expr.and l r) (fun _ => Tok.kw .AND) (fun _ => True)
+    (fun e => okE e = true ∧ 3 ≤ e.lvl ∧ depthE e ≤ d + 1) (fun e => okE e = true ∧ 2 ≤ e.lvl ∧ depthE e ≤ d + 1)
+    (fun r => follow 3 r = true) (fun r => follow 2 r = true)
+    (fun e ⟨h1, h2, h3⟩ rest hf => rt3 hp _ e (Nat.le_refl _) h1 h2 h3 rest hf)
+    (fun _ _ => rfl)
+    (fun _ ts _ => by simp [follow, tokLevel])
+    (fun rest h => follow_mono (by omega) h)
+    (fun t ts h => by
+      simp [follow] at h
+      unfold andOpOf; split <;> simp_all [tokLevel])
+    ?_ e ⟨hok, hl, hd⟩ rest hf
+  intro e ⟨h1, h2, h3⟩
+  by_cases hk : 3 ≤ e.lvl
+  · exact Or.inl ⟨h1, hk, h3⟩
+  · right
+    cases e with
+    | and l r =>
+      simp [okE] at h1
+      simp [depthE] at h3
+      exact ⟨(), l, r, trivial, rfl, ⟨h1.1.1.1, h1.1.2, by omega⟩, ⟨h1.1.1.2, h1.2, by omega⟩, printE_and l r,
+        by simp [sizeE]; omega⟩
+    | val ty neg s => cases neg <;> simp [Expr.lvl] at h2 hk
+    | bin op _ _ => cases op <;> simp [Expr.lvl, BinOp.lvl] at h2 hk
+    | _ => simp [Expr.lvl] at h2 hk
+
+/-- level 1: `expression` -/
+theorem rt1 (e : Expr) (hok : okE e = true) (hl : 1 ≤ e.lvl) (hd : depthE e ≤ d + 1) (rest : List Tok)
+    (hf : follow 1 rest = true) : parseExpr prev (printE e ++ rest) = some (e, rest) := by
+  refine binLevel_rt (parseAnd prev) orOpOf (fun _ l r => Expr.or l r) (fun _ => Tok.kw .OR) (fun _ => True)
+    (fun e => okE e = true ∧ 2 ≤ e.lvl ∧ depthE e ≤ d + 1) (fun e => okE e = true ∧ 1 ≤ e.lvl ∧ depthE e ≤ d + 1)
+    (fun r => follow 2 r = true) (fun r => follow 1 r = true)
+    (fun e ⟨h1, h2, h3⟩ rest hf => rt2 hp e h1 h2 h3 rest hf)
+    (fun _ _ => rfl)
+    (fun _ ts _ => by simp [follow, tokLevel])
+    (fun rest h => follow_mono (by omega) h)
+    (fun t ts h => by
+      simp [follow] at h
+      unfold orOpOf; split <;> simp_all [tokLevel])
+    ?_ e ⟨hok, hl, hd⟩ rest hf
+  intro e ⟨h1, h2, h3⟩
+  by_cases hk : 2 ≤ e.lvl
+  · exact Or.inl ⟨h1, hk, h3⟩
+  · right
+    cases e with
+    | or l r =>
+      simp [okE] at h1
+      simp [depthE] at h3
+      exact ⟨(), l, r, trivial, rfl, ⟨h1.1.1.1, h1.1.2, by omega⟩, ⟨h1.1.1.2, h1.2, by omega⟩, printE_or l r,
+        by simp [sizeE]; omega⟩
+    | val ty neg s => cases neg <;> simp [Expr.lvl] at h2 hk
+    | bin op _ _ => cases op <;> simp [Expr.lvl, BinOp.lvl] at h2 hk
+    | _ => simp [Expr.lvl] at h2 hk
+
+/-- `t.*` makes the expression parser of this level give up, too -/
+theorem star1_here (t : Tok) (rest : List Tok) (h : identOf t ≠ none) :
+    parseExpr prev (t :: Tok.kw .DOT :: Tok.kw .STAR :: rest) = none := by
+  have hatom : parseAtom prev (t :: Tok.kw .DOT :: Tok.kw .STAR :: rest) = none := by
+    cases t <;> simp [identOf] at h <;> simp [parseAtom, parseIdentRest, headIs_cons, identOf]
+  have hu : parseUnary prev (t :: Tok.kw .DOT :: Tok.kw .STAR :: rest) = none := by
+    cases t <;> simp [identOf] at h <;> simp [parseUnary, parsePostfix, hatom]
+  simp [parseExpr, parseAnd, parseNot, parseIs, parseCond, parseVal, parseL7, parseL8, parseL9, parseL10, parseL11,
+    binLevel, hu, headIs_cons]
+  cases t <;> simp [identOf] at h <;> simp
+
+theorem star2_here (t1 t2 : Tok) (rest : List Tok) (h1 : identOf t1 ≠ none) (h2 : identOf t2 ≠ none) :
+    parseExpr prev (t1 :: Tok.kw .DOT :: t2 :: Tok.kw .DOT :: Tok.kw .STAR :: rest) = none := by
+  have hatom : parseAtom prev (t1 :: Tok.kw .DOT :: t2 :: Tok.kw .DOT :: Tok.kw .STAR :: rest) = none := by
+    cases t1 <;> simp [identOf] at h1 <;> cases t2 <;> simp [identOf] at h2 <;>
+      simp [parseAtom, parseIdentRest, headIs_cons, identOf]
+  have hu : parseUnary prev (t1 :: Tok.kw .DOT :: t2 :: Tok.kw .DOT :: Tok.kw .STAR :: rest) = none := by
+    cases t1 <;> simp [identOf] at h1 <;> simp [parseUnary, parsePostfix, hatom]
+  simp [parseExpr, parseAnd, parseNot, parseIs, parseCond, parseVal, parseL7, parseL8, parseL9, parseL10, parseL11,
+    binLevel, hu, headIs_cons]
+  cases t1 <;> simp [identOf] at h1 <;> simp
 
 end level
 
